@@ -282,7 +282,7 @@ Proof.
     apply (sanitize_attrs_idem_rel_closed I ugc (B"area") ugc_area_aps Hs); auto.
     + intros v c1 c2. rewrite (ugc_no_style_policies I (B"area")). apply Fa_area_rel_mod. exact Hmm.
     + intros nf nr. rewrite (ugc_no_style_policies I (B"area")). apply Fa_area_rel_app. exact Hmm.
-    + apply (url_unpatterned_sound _ _ _ I ugc). vm_compute. reflexivity.
+    + apply (url_free_sound _ _ _ I ugc). vm_compute. reflexivity.
   - destruct (mem n [B"del"; B"ins"]) eqn:Eu.
     + specialize (Hno n a aps Hin Eu Hp). rewrite E in Hno. rewrite !E.
       apply (sanitize_attrs_idem_no_url I ugc n aps Hs); assumption.
@@ -381,7 +381,7 @@ Qed.
    rel globally but not crossorigin, are stable (and not by the earlier conditions); the two refuting policies are not *)
 Definition c20_mixed_policy : policy smatcher unit unit :=
   build no_default [@OAllowAttrs _ _ _ [B"href"; B"rel"] None false (@OnElements _ [B"link"]);
-                    @OAllowAttrs _ _ _ [B"src"] None false (@OnElements _ [B"img"]);
+                    @OAllowAttrs _ _ _ [B"alt"] None false (@OnElements _ [B"img"]);
                     @OAllowAttrs _ _ _ [B"rel"] None false (@Globally _);
                     @OAllowURLSchemes _ _ _ [B"http"]; @ORequireNoFollowOnLinks _ _ _ true; @ORequireCrossOriginAnonymous _ _ _ true].
 Example C20_condition_separates :
